@@ -11,13 +11,13 @@ CLAIMED = {
          'For every enumerated abstract hint shape (all productions nested in all slots, depth 2; depth 3 sampled in the thorough tier) x {is_random} the code beartype would generate is obtained by interpreting make_check_expr over abstract hints, rewritten to a variable-free term and compared with the reference semantics of the hint: the generated test accepts at least what the reference accepts, every item read is guarded, every pith variable is bound where read, templates and call sites agree, validator code is hygienic for every category of pith expression it receives, and the ignorable fast path exists on all three entry routes. Necessary conditions of C01, decided for all hints of the enumerated shapes and, by compositionality of the generator, for their nestings.',
          GEN_NOTE + ' Defects F1, F2 (validator hygiene) found by C01.R2 were repaired in /repo (fix: dd6e4a7); the rule stays armed.', 'DESIGN.md §4 C01'),
  'C02': ('abstract interpretation of the code generator + term comparison with reference semantics (detection direction) + scope/draw consistency + fail-closed table of ignorable-sentinel producers (path-condition fingerprints)',
-         'For every enumerated shape the generated term equals the reference term exactly (prescribed item strategy: random index modulo the length of the same container under is_random, first item otherwise; every fixed-tuple position and the length test; all literals by ==; isinstance-and-issubclass; metahint and every validator conjoined) or implies it; the random draw is in scope exactly when used and is drawn once; an ignorable child elides only the child test; every producer of the ignorable sentinel is one of 14 reviewed producers.',
+         'For every enumerated shape the generated term equals the reference term exactly (prescribed item strategy: random index modulo the length of the same container under is_random, first item otherwise; every fixed-tuple position and the length test; all literals by ==; isinstance-and-issubclass; metahint and every validator conjoined) or implies it; the random draw is in scope exactly when used and is drawn once; an ignorable child elides only the child test; every producer of the ignorable sentinel is one of 14 reviewed producers; every container sign of the sign universe receives the item strategy of its family; the memo key of the generated expression contains the configuration.',
          GEN_NOTE + ' Assumes R % n over 32 bits reaches every residue for n <= 2**32. C02.R4 is deliberately fail-closed for new producers.', 'DESIGN.md §4 C02'),
  'C03': ('exhaustive evaluation of both dispatchers over the folded sign universe (167 cases) by abstract interpretation + symbolic interpretation of the re-sampling functions + ast queries on generated wrappers under each warn-flag combination + reviewed table of private raise sites',
-         'Generator and explanation path are two implementations of the hint semantics: for every sign x subscription the production the generator emits and the cause finder find_cause selects are paired as the specification table requires; both sides share one logic object per container family; each logic class re-samples exactly the item expression its template tested; the violation class and the raise-vs-warn handler are selected by the same pith kind; the OO API delegates; private desynchronisation raise sites are the 9 reviewed ones.',
+         'Generator and explanation path are two implementations of the hint semantics: for every sign x subscription the production the generator emits and the cause finder find_cause selects are paired as the specification table requires; both sides share one logic object per container family; each logic class re-samples exactly the item expression its template tested; the violation class and the raise-vs-warn handler are selected by the same pith kind; the OO API delegates; private desynchronisation raise sites are the 9 reviewed ones; operations the explanation path applies to the checked object are licensed by the guards of the generated code.',
          GEN_NOTE + ' Agreement inside a paired handler for every object (user __instancecheck__, validators raising) is not decided.', 'DESIGN.md §4 C03'),
  'C04': ('abstract interpretation of the wrapper generator (generate_code, code_check_args/return, iter_func_args, make_func_signature) over abstract callables + syntax-tree queries on the generated wrapper source',
-         'For 326 abstract callables (12 signatures covering all five parameter kinds x annotation patterns x return kinds x callable kinds) the wrapper source beartype would generate is obtained by interpretation and inspected: each parameter kind is localised from the right source with the true index / name, unpassed parameters are not checked, the keywordable set is exact, there is exactly one call-through f(*args, **kwargs) outside any try, args/kwargs are never modified, parameter checks precede and the return check follows the call, and the returned name is the call result.',
+         'For 326 abstract callables (12 signatures covering all five parameter kinds x annotation patterns x return kinds x callable kinds) the wrapper source beartype would generate is obtained by interpretation and inspected: each parameter kind is localised from the right source with the true index / name, unpassed parameters are not checked, the keywordable set is exact, there is exactly one call-through f(*args, **kwargs) outside any try, args/kwargs are never modified, parameter checks precede and the return check follows the call, and the returned name is the call result; a functools.wraps wrapper is checked against the wrapped signature exactly when it declares no named parameter (32 wrapper-signature shapes).',
          'Trusted: as for C01, plus the abstract code object (co_argcount, co_posonlyargcount, co_kwonlyargcount, co_flags, co_varnames) standing in for CPython code objects. CPython\'s own binding errors are not modelled.', 'DESIGN.md §4 C04'),
  'C08': ('abstract interpretation of BeartypeCallDecorFuncData.reinit + generate_code for the 4 callable kinds + syntactic kind classification + dataflow facts on the async-yield-from template',
          'For every callable kind x return kind the generated wrapper is syntactically the same kind of callable and passes the compiler front-end; the awaited value / generator object is what is bound, checked and returned or delegated to; the hand-written async yield-from satisfies the PEP 380 forwarding obligations (asend iff a value was sent, athrow for thrown exceptions, aclose + re-raise on GeneratorExit before BaseException, StopAsyncIteration caught only around forwarding awaits, latest inner value yielded).',
@@ -40,10 +40,10 @@ CLAIMED = {
 AST_NOTE = "Trusted: CPython ast; name-based resolution of imports and calls (first-class callables are unresolved callees and fail closed where a rule quantifies over every caller); the recognised idioms of DESIGN-tables T6; the reasoned tables held in the rule module (one line of reason per entry). Necessary conditions only: behaviour over all histories / schedules is constrained, not proved."
 CLAIMED.update({
  'C05': ('visitor return-shape analysis + mutation whitelist + must-dataflow typestate (constructed -> located) + abstract interpretation of visit_AnnAssign over the grammar of target kinds + path enumeration of the decorator-placement dispatch',
-         'The import-hook transformer only adds: every visit_* returns the visited node once plus fresh nodes, original nodes are only mutated by decorator insertion and the star-import slice, generated statements bind reserved names; all definition kinds are visited and recursed; every constructed node is located before it escapes; the star import goes after the docstring/__future__ prefix; annotated assignments get a check for every target kind (exhaustive 3x2x2x2); hook-time decoration failures are warnings; decorator placement is total and inserts exactly once on every path.',
+         'The import-hook transformer only adds: every visit_* returns the visited node once plus fresh nodes, original nodes are only mutated by decorator insertion and the star-import slice, generated statements bind reserved names; all definition kinds are visited and recursed; every constructed node is located before it escapes; the star import goes after the docstring/__future__ prefix; annotated assignments get a check for every target kind (exhaustive 3x2x2x2); hook-time decoration failures are warnings; decorator placement is total and inserts exactly once on every path; the configuration a module is transformed with is the one its injected code looks up at run time.',
          AST_NOTE + ' Known findings F4, F16.', 'DESIGN.md §4 C05'),
  'C06': ('lock-region analysis over a resolved call graph + structural check of the lookup fold + may-dataflow (store before raise) with path enumeration of sibling callees + interprocedural write-set vs restore-set + value-provenance of the restore condition modulo the normaliser',
-         'Registry and path-hook state are only touched under claw_lock (lexically or in every caller); blacklist dominates whitelist and the deepest registered prefix wins; no registry store precedes a conflict raise on any path; beartyping() restores every field it (transitively) writes and compares with the value it stored; path-hook add/remove are idempotent and paired with cache invalidation.',
+         'Registry and path-hook state are only touched under claw_lock (lexically or in every caller); blacklist dominates whitelist and the deepest registered prefix wins; no registry store precedes a conflict raise on any path; beartyping() restores every field it (transitively) writes and compares with the value it stored; path-hook add/remove are idempotent and paired with cache invalidation; registration descends to the node of the full dotted name; the registry-emptiness test sees registrations at every depth (abstract registry shapes); only the registration module stores configurations.',
          AST_NOTE + ' Known findings F6, F7; F5 repaired in /repo (fix: dc3e6e4).', 'DESIGN.md §4 C06'),
  'C11': ('raise-site typing over the resolved class hierarchy (327 sites) + exception_cls default/argument flow + sibling check of make_func routes + family layering + guard dominance of first-hash sites + wrapper try-body facts',
          'Every raise in the package is a BeartypeException subclass, a re-raise, a forwarded exception_cls parameter or one of 14 reviewed protocol-mandated builtin raises; exception_cls defaults and arguments are beartype classes; both routes into make_func pass a public class; each sub-package raises only its own family; the placeholder re-raise keeps the object; the first hash of raw user input in entry functions is guarded; generated wrappers never put the call-through in a try.',
@@ -112,7 +112,7 @@ def main():
             'add_only': True,
         },
         'engines': [{'name': 'sa', 'path': '/verif/sa', 'serves_properties': sorted(CLAIMED),
-                     'kind_free_text': 'repository-specific static analysis over the ast of the working tree: constant folding of templates and dispatch tables, string-shape analysis of the code generators, structured path (must/may) dataflow, name-resolved call graph with effect summaries; pure stdlib, beartype is never imported'}],
+                     'kind_free_text': 'repository-specific static analysis over the ast of the working tree: folding of templates and dispatch tables, abstract interpretation of the code generators / validator factories / small predicates over finite domains of abstract hints, callables, AST nodes and registry shapes (the analyser\'s own interpreter; beartype is never imported or executed), term rewriting of generated code with definite-assignment analysis and comparison against reference semantics, structured path (must/may) dataflow, name-resolved call graph with effect summaries; pure stdlib'}],
         'checks': checks,
         'not_applicable': na,
         'notes': 'Every check: exit 0 = all obligations discharged (known findings printed as KNOWN-FINDING lines), exit 1 = VIOLATION line with a replay file, exit 2 = ANALYSIS-ERROR (anchor vanished / idiom not recognised / instance floor not met). See DESIGN.md.',
